@@ -11,7 +11,7 @@ BOUNDS = {
     "quick": "3 trains with 0..2 spikes each and at most 4 spikes in total, 2 trains with 0..2 spikes; two symbolic "
              "thresholds 0 <= thr1 <= thr2 <= 1 (the solver hits k/(N-1) exactly); (max_tau, MRTS) in {(None, omitted), "
              "(symbolic > 0, symbolic > 0) for <= 3 spikes}; py and pyx",
-    "thorough": "3 trains with 0..2 spikes each (all), (3,1,1) in every order, 4 trains with 0..1 spikes; same settings",
+    "thorough": "3 trains with 0..2 spikes each (sum <= 5), (3,1,1) in every order, 4 trains with 0..1 spikes (max_tau None, MRTS omitted); same settings otherwise",
 }
 OUTSIDE = "more trains / spikes"
 ASSUMPTIONS = ["oracle: per spike the number of other trains holding a coincident spike by the pairwise definition of C03 (hx.coincidences)"]
@@ -20,13 +20,13 @@ ASSUMPTIONS = ["oracle: per spike the number of other trains holding a coinciden
 def configs(tier):
     q = tier == "quick"
     for be in ("py", "pyx"):
-        sizes = [ns for ns in itertools.product(range(3), repeat=3) if sum(ns) <= (4 if q else 6)]
+        sizes = [ns for ns in itertools.product(range(3), repeat=3) if sum(ns) <= (4 if q else 5)]
         sizes += [ns for ns in itertools.product(range(3), repeat=2)]
         if not q:
             sizes += list(set(itertools.permutations((3, 1, 1)))) + [ns for ns in itertools.product(range(2), repeat=4)]
         for ns in sizes:
             for mt, mk in (("none", "omit"), ("pos", "pos")):
-                if mk == "pos" and sum(ns) > (3 if q else 4):
+                if mk == "pos" and (sum(ns) > (3 if q else 4) or len(ns) > 3):
                     continue
                 yield dict(name="%s-mt%s-m%s-%s" % (be, mt, mk, "+".join(map(str, ns))), backend=be, mt=mt, m=mk,
                            ns=list(ns), cost=7 ** sum(ns) * (3 if mk == "pos" else 1),
